@@ -369,6 +369,19 @@ pub fn answer(op: &[i64]) -> String {
       });
       format!("{}#{}#{}", w, lw, f)
     }
+    22 => {
+      // inverse search of the eight characters of an instant over the three years around it
+      let t = SolarTime::from_ymd_hms(p1 as isize, p2 as usize, p3 as usize, (p4 % 24) as usize, 30, 0);
+      let ec = t.get_sixty_cycle_hour().get_eight_char();
+      let r = ec.get_solar_times((p1 - 1).max(1) as isize, (p1 + 1).min(9998) as isize);
+      format!("{}|{}", ec, r.iter().map(|x| x.to_string()).collect::<Vec<_>>().join(","))
+    }
+    23 => {
+      // festival lookups by lunar date (a refusal of the date is a refusal of the request) and through the day objects
+      let f = LunarFestival::from_ymd(p1 as isize, p2 as isize, p3 as usize);
+      let l = LunarDay::from_ymd(p1 as isize, p2 as isize, p3 as usize);
+      format!("{:?}|{:?}|{:?}", f.map(|x| x.to_string()), l.get_festival().map(|x| x.to_string()), l.get_solar_day().get_festival().map(|x| x.to_string()))
+    }
     _ => "BADOP".to_string(),
   });
   match r {
@@ -401,6 +414,8 @@ fn op_desc(op: &[i64]) -> String {
     19 => format!("SolarTime({}-{}-{} {}:30) hour almanac on both views, hour nine star, term", op[1], op[2], op[3], op[4] % 24),
     20 => format!("year {}: LunarYear / SixtyCycleYear attributes and month list, one lunar month (selector {})", op[1], op[2]),
     21 => format!("SolarDay({}-{}-{}) solar and lunar week (start {}, step {}), festival stepping", op[1], op[2], op[3], op[4].rem_euclid(7), (op[4] / 7).rem_euclid(21) - 10),
+    22 => format!("eight characters of SolarTime({}-{}-{} {}:30) searched in the years around it", op[1], op[2], op[3], op[4] % 24),
+    23 => format!("LunarFestival::from_ymd({},{},{}) and the day's own festival look-ups", op[1], op[2], op[3]),
     _ => "?".into(),
   }
 }
@@ -541,6 +556,9 @@ fn op_strategy() -> impl Strategy<Value = Vec<i64>> {
     5 => (date.clone(), 0i64..24).prop_map(|((y, m, d), h)| vec![19, y.clamp(2, 9997), m, d, h]),
     3 => (civil_year2.clone(), 0i64..91).prop_map(|(y, s)| vec![20, y.clamp(1, 9997), s, 0, 0]),
     3 => (date.clone(), 0i64..147).prop_map(|((y, m, d), q)| vec![21, y.clamp(2, 9997), m, d, q]),
+    2 => (date.clone(), 0i64..24).prop_map(|((y, m, d), h)| vec![22, y.clamp(3, 9996), m, d.min(28), h]),
+    4 => (valid_month.clone(), prop_oneof![6 => 1i64..=29, 1 => Just(30i64), 1 => Just(31), 1 => Just(0)]).prop_map(|((y, m), d)| vec![23, y.clamp(1, 9998), if valid_months(y.clamp(1, 9998)).contains(&m) { m } else { m.abs() }, d, 0]),
+    2 => (year.clone(), prop_oneof![Just(0i64), Just(13), Just(-13)], 1i64..=29).prop_map(|(y, m, d)| vec![23, y.clamp(1, 9998), m, d, 0]),
     // refused requests (invalid month, missing leap month, bad day, bad year, unreachable child limit)
     4 => (year.clone(), prop_oneof![Just(0i64), Just(13), Just(-13), Just(14), Just(-14)]).prop_map(|(y, m)| vec![0, y, m, 0, 0]),
     4 => (year.clone(), 1i64..=12).prop_map(|(y, k)| {
@@ -587,7 +605,7 @@ fn history_strategy(maxlen: usize) -> impl Strategy<Value = Case> {
             op[2] = m;
             op[3] = d;
           }
-          10 | 17 if y >= 25 && y <= 9998 => {
+          10 | 17 | 22 if y >= 25 && y <= 9996 => {
             op[1] = y;
             op[2] = m;
             op[3] = d.min(28);
@@ -695,7 +713,7 @@ fn ops_of(case: &Case) -> Vec<Vec<i64>> {
 }
 
 fn is_lunar_op(op: &[i64]) -> bool {
-  matches!(op[0], 0..=21)
+  matches!(op[0], 0..=23)
 }
 
 /// classify a history (non-trivial rule) and count generator classes
@@ -1214,7 +1232,7 @@ impl Prop for C10 {
           // every other round is concentrated on two request kinds (their requests repeated in a scrambled order), so that
           // the 16 threads are inside the same library code with different arguments at the same moment
           let c = if r % 2 == 1 {
-            let (k1, k2) = sample_strategy(&(0i64..22, 0i64..22), mix(env.seed ^ ((shard * 1000 + r) as u64) ^ 0xc0c0));
+            let (k1, k2) = sample_strategy(&(0i64..24, 0i64..24), mix(env.seed ^ ((shard * 1000 + r) as u64) ^ 0xc0c0));
             let ops: Vec<Vec<i64>> = ops_of(&c).into_iter().filter(|o| o[0] == k1 || o[0] == k2).collect();
             if ops.len() >= 20 {
               out.class("thread_rounds_concentrated_on_two_request_kinds");
@@ -1280,7 +1298,7 @@ impl Prop for C10 {
         // month, the cut-over, a reform-era seam) - in one fresh process vs each alone in a fresh process. State shared between
         // two routes that the hooks do not know is invisible to the in-process oracle (the reference would share it).
         {
-          let kinds: [i64; 14] = [0, 1, 2, 3, 4, 5, 6, 7, 11, 12, 18, 19, 20, 21];
+          let kinds: [i64; 16] = [0, 1, 2, 3, 4, 5, 6, 7, 11, 12, 18, 19, 20, 21, 22, 23];
           let bases: [(i64, i64, i64); 8] = [(2024, 2, 4), (1950, 2, 4), (2023, 12, 22), (2024, 2, 10), (2023, 3, 25), (1582, 10, 15), (25, 2, 17), (9997, 6, 1)];
           let mut idx = 0usize;
           for (bi, (by, bm, bd)) in bases.iter().enumerate() {
@@ -1296,6 +1314,42 @@ impl Prop for C10 {
               }
             }
           }
+        }
+        // requests half a year apart in neighbouring years (a key like year*12 + 2*month confuses exactly those), in both
+        // orders, for the request kinds that have an inner month or term loop
+        if shard == 1 % nshards {
+          for y in [2023i64, 1984, 240, 5000] {
+            for mo in 1..=12i64 {
+              let mo2 = (mo + 5) % 12 + 1;
+              for k in [22i64, 5, 16, 11] {
+                let (a, b) = match k {
+                  16 => (vec![16, y, mo - 1, 0, 0], vec![16, y + 1, mo2 - 1, 0, 0]),
+                  11 => (vec![11, y, 2 * mo - 1, 0, 0], vec![11, y + 1, 2 * mo2 - 1, 0, 0]),
+                  _ => (vec![k, y, mo, 15, 10], vec![k, y + 1, mo2, 15, 10]),
+                };
+                out.class("half_year_apart_pairs_in_neighbouring_years");
+                run_case(env, out, "fresh", &Case::ints(&[a.clone(), b.clone()].concat()), &ev);
+                run_case(env, out, "fresh", &Case::ints(&[b, a].concat()), &ev);
+              }
+            }
+          }
+        }
+        // the term festivals of one lunar year asked for in both orders as the first festival questions of the process
+        if shard == 2 % nshards {
+          for y in (1900i64..=2100).step_by(env.tier.pick(20, 3)).chain([1645, 9000]) {
+            if let Ok(Some((q, w))) = guard(|| {
+              let q = LunarFestival::from_index(y as isize, 4)?.get_day();
+              let w = LunarFestival::from_index(y as isize, 10)?.get_day();
+              Some(((q.get_year() as i64, q.get_month() as i64, q.get_day() as i64), (w.get_year() as i64, w.get_month() as i64, w.get_day() as i64)))
+            }) {
+              let a = vec![23, q.0, q.1, q.2, 0];
+              let b = vec![23, w.0, w.1, w.2, 0];
+              out.class("term_festival_pairs_of_one_year");
+              run_case(env, out, "fresh", &Case::ints(&[a.clone(), b.clone()].concat()), &ev);
+              run_case(env, out, "fresh", &Case::ints(&[b, a].concat()), &ev);
+            }
+          }
+          clean_state();
         }
         let total: u32 = env.tier.pick(480, 8000);
         prop_run(env, out, "fresh", total / nshards as u32, 100 + shard as u64, history_strategy(16), &ev);
